@@ -136,7 +136,11 @@ class RSAKey(PKey):
         return m
 
     def verify_ssh_sig(self, data, msg):
-        sig_algorithm = msg.get_text()
+        try:
+            sig_algorithm = msg.get_text()
+        except SSHException:
+            # algorithm name is not valid UTF-8
+            return False
         if sig_algorithm not in self.HASHES:
             return False
         key = self.key
